@@ -6,6 +6,7 @@ import (
 	"reflect"
 	"sort"
 	"strings"
+	"verif/jsstr"
 
 	"github.com/xjslang/xjs/ast"
 	"github.com/xjslang/xjs/lexer"
@@ -118,7 +119,7 @@ func (n *cnode) S() string {
 	case "id":
 		return "(id " + n.name + ")"
 	case "num":
-		return "(num " + n.name + ")"
+		return "(num " + jsstr.NumMeaning(n.name) + ")"
 	case "bin":
 		return "(bin " + n.op + " " + n.kids[0].S() + " " + n.kids[1].S() + ")"
 	case "asg":
